@@ -413,8 +413,8 @@ def size_bound_cases(rng):
 def offpath_null_cases():
     """a null for an OPTIONAL field of an inline StructureReference, the inline class reached directly, as a direct Array
     item (there a null is the same as an absent key) and through a Map value / Tuple item / Deque item / nested Array
-    (there the real code hands the field the value None): directed, so that the known over-rejection is reproduced on
-    every run"""
+    (there the real code handed the field the value None until /repo 2133150): directed, so that the repaired
+    over-rejection is noticed at once if it comes back"""
     inl = lambda: {"k": "struct", "name": "Inl1", "required": ["y"], "addl": False, "inline": True,
                    "fields": [["x", {"k": "integer"}], ["y", {"k": "string"}]]}
     obj = {"m": [["y", "a"], ["x", None]]}
@@ -781,8 +781,8 @@ def null_in_nested_object(doc, depth=0):
 def correspondence(case, impl, model):
     if "unbuildable" in impl:
         return None
-    if case["mode"] == "deser" and null_in_nested_object(case["doc"]) and offpath_inline(case["cls"]):
-        return None     # outside the model (sub-mapper availability is not modelled)
+    # (a null inside an inline StructureReference is an absent key at every position since /repo 2133150: the former
+    #  exclusion of "off-path" inline classes - sub-mapper availability - is gone)
     if case["mode"] == "roundtrip" and not in_model_scope(case["cls"]):
         return None
     if "abstraction_mismatch" in impl:
